@@ -170,7 +170,7 @@ Proof.
            ++ destruct (cstep c s serial cost false (CSend x)) as [[q' s1]|] eqn:E; [|discriminate]. apply Hc in E. inversion Hs; subst. exact E.
            ++ destruct (cstep c s serial cost false (CWait x)) as [[q' s1]|] eqn:E; [|discriminate]. apply Hc in E. inversion Hs; subst. exact E.
            ++ destruct o; inversion Hs; subst; exact Hb.
-        -- destruct (locked s); [discriminate|]. destruct src; inversion Hs; subst; exact Hb.
+        -- destruct (locked s); [discriminate|]. destruct src; [destruct (is_nil (s_senders s))|]; inversion Hs; subst; exact Hb.
         -- destruct (x_inbox x); [destruct (closed (x_chan x) s); [|discriminate]|]; inversion Hs; subst; exact Hb.
       * destruct p; try discriminate. destruct (send_try c s cost) as [ok s1] eqn:E. apply Hsend in E. inversion Hs; subst. exact E.
     + destruct Hst as [Hb|Hst]; [|now right]. left.
@@ -194,7 +194,7 @@ Proof.
            ++ destruct (cstep c s serial cost false (CSend x)) as [[q' s1]|] eqn:E; [|discriminate]. apply Hc in E. inversion Hs; subst. exact E.
            ++ destruct (cstep c s serial cost false (CWait x)) as [[q' s1]|] eqn:E; [|discriminate]. apply Hc in E. inversion Hs; subst. exact E.
            ++ destruct o; inversion Hs; subst; exact Hb.
-        -- destruct (locked s); [discriminate|]. destruct src; inversion Hs; subst; exact Hb.
+        -- destruct (locked s); [discriminate|]. destruct src; [destruct (is_nil (s_senders s))|]; inversion Hs; subst; exact Hb.
         -- destruct (x_inbox x); [destruct (closed (x_chan x) s); [|discriminate]|]; inversion Hs; subst; exact Hb.
       * destruct p; try discriminate. destruct (send_try c s cost) as [ok s1] eqn:E. apply Hsend in E. inversion Hs; subst. exact E.
 Qed.
